@@ -58,7 +58,7 @@ def file_api_cases(ck, cases, nmax):
             seqs = [s for s in c['seqs']]
             names = gen.names_for(ck.rng, len(seqs))
             inp = os.path.join(tmp, 'in%d.fa' % idx)
-            open(inp, 'w').write(gen.fasta(names, seqs, ck.rng.choice([60, 60, 7, 100])))
+            open(inp, 'w').write(gen.fasta(names, c.get('written', seqs), ck.rng.choice([60, 60, 7, 100])))
             for fmt in ('fasta', 'msf', 'clu'):
                 outp = os.path.join(tmp, 'out%d.%s' % (idx, fmt))
                 lines.append('runfile 0 %d %d %d %d %d %s %s %s' % (c['threads'], c['type'], c['pens'][0], c['pens'][1], c['pens'][2], fmt, outp, inp))
@@ -88,4 +88,24 @@ def file_api_cases(ck, cases, nmax):
             out.append((c, fmt, v == 'ok', v, names))
     finally:
         shutil.rmtree(tmp, ignore_errors=True)
+    return out
+
+
+def late_punct_cases(ck, n):
+    """> 50 sequences of unequal lengths with a stray gap / stop character only in records beyond the 50th
+    (the aligned/unaligned decision once sampled the first 50 records only)"""
+    rng = ck.rng
+    out = []
+    for k in range(n):
+        kind = 'dna' if rng.chance(1, 2) else 'protein'
+        alpha = gen.DNA if kind == 'dna' else gen.PROT
+        m = rng.choice([52, 60, 70])
+        root = gen.rand_seq(rng, alpha, rng.range(12, 30))
+        seqs = [gen.mutate(rng, root, alpha, 10, 8) + ('WKW' if kind == 'protein' else '') for _ in range(m)]
+        written = list(seqs)
+        for j in range(m - rng.range(1, 3), m):
+            p = rng.below(len(seqs[j]) + 1)
+            written[j] = seqs[j][:p] + rng.choice(['-', '*', '.', '--']) + seqs[j][p:]
+        out.append({'kind': kind, 'family': 'late-punct>50', 'seqs': seqs, 'written': written, 'type': 5, 'pens': [gen.NG, gen.NG, gen.NG], 'threads': rng.choice([1, 4])})
+        ck.count('family:late-punct>50')
     return out
